@@ -30,6 +30,9 @@ pub trait Runnable: Sync {
     fn name(&self) -> String;
     fn run(&self, perm: u64) -> Report;
     fn replay(&self, seed: &str, actions: &[Action], verbose: bool) -> Vec<(Viol, usize)>;
+    fn has_seed(&self, _seed: &str) -> bool {
+        true
+    }
 }
 
 pub struct Bfs<S: Scenario> {
@@ -45,6 +48,9 @@ impl<S: Scenario> Runnable for Bfs<S> {
     }
     fn replay(&self, seed: &str, actions: &[Action], verbose: bool) -> Vec<(Viol, usize)> {
         replay_verbose(&self.sc, seed, actions, verbose)
+    }
+    fn has_seed(&self, seed: &str) -> bool {
+        self.sc.seeds().iter().any(|s| s.0 == seed)
     }
 }
 pub fn bfs<S: Scenario + 'static>(sc: S, max_depth: usize, max_secs: f64) -> Box<dyn Runnable> {
@@ -249,7 +255,7 @@ pub fn run_replay(chk: Check, path: &str) -> i32 {
     let oracle = v["oracle"].as_str().unwrap_or("");
     let sig = v["signature"].as_str().unwrap_or("");
     let actions: Vec<Action> = serde_json::from_value(v["actions"].clone()).expect("actions");
-    let Some(job) = chk.jobs.iter().find(|j| j.name() == scenario) else {
+    let Some(job) = chk.jobs.iter().find(|j| j.name() == scenario && j.has_seed(seed)) else {
         eprintln!("krpmc: scenario {} not found in check {}", scenario, chk.id);
         return 2;
     };
